@@ -51,10 +51,10 @@ IntAtoms == {-1, 2, 4}
 IsStr(v) == v \in Seq(AllAlpha)
 
 (* features of a string that matter to quoting: part of a case's identity *)
-StrFeat(v) == (IF Len(v) > 0 /\ v[1] = "q" THEN {"q^"} ELSE {})
-              \cup (IF Len(v) > 1 /\ v[Len(v)] = "q" THEN {"q$"} ELSE {})
-              \cup (IF \E i \in 2..(Len(v) - 1) : v[i] = "q" THEN {"q."} ELSE {})
-              \cup (Range(v) \cap {"d", "s"})
+StrFeat(v) == (IF Len(v) > 0 /\ v[1] = "q" THEN {"qstart"} ELSE {})
+              \cup (IF Len(v) > 1 /\ v[Len(v)] = "q" THEN {"qend"} ELSE {})
+              \cup (IF \E i \in 2..(Len(v) - 1) : v[i] = "q" THEN {"qmid"} ELSE {})
+              \cup (IF "d" \in Range(v) THEN {"dquote"} ELSE {}) \cup (IF "s" \in Range(v) THEN {"semi"} ELSE {})
               \cup (IF Range(v) \cap {"k", "p", "o", "u"} # {} THEN {"cont"} ELSE {})      \* carries SQL continuation text
 
 Row(i, n) == [id |-> i, name |-> n]
